@@ -95,8 +95,10 @@ def compare_lammps(text, pots_spec, cutoff, nr, tol=2e-8, check_force=True):
         bad.append("row %d r=%r expected %r" % (n, r, rn))
       if not close(e, f(rn)):
         bad.append("row %d E=%r expected %r" % (n, e, f(rn)))
-      if check_force and d is not None and d(rn) is not None and not close(fo, -d(rn), 50.0):
-        bad.append("row %d F=%r expected %r" % (n, fo, -d(rn)))
+      if check_force and d is not None:
+        dv = d(rn)
+        if dv is not None and not (close(fo, -dv, 50.0) or abs(fo + dv) <= deriv_noise(f, rn)):
+          bad.append("row %d F=%r expected %r" % (n, fo, -dv))
   return bad
 
 
@@ -123,42 +125,76 @@ def compare_dlpoly(text, pots_spec, cutoff, nr, tol=3e-7):
       r = (k + 1) * delpot
       if not close(blk["energies"][k], f(r)):
         bad.append("E[%d]=%r expected %r" % (k, blk["energies"][k], f(r)))
-      if d is not None and d(r) is not None and not close(blk["forces"][k], -r * d(r), 50.0):
-        bad.append("G[%d]=%r expected %r" % (k, blk["forces"][k], -r * d(r)))
+      if d is not None:
+        dv = d(r)
+        if dv is not None and not (close(blk["forces"][k], -r * dv, 50.0) or
+                                   abs(blk["forces"][k] + r * dv) <= abs(r) * deriv_noise(f, r)):
+          bad.append("G[%d]=%r expected %r" % (k, blk["forces"][k], -r * dv))
   return bad
 
 
+def _stencil(f, h):
+  def d(r):
+    r1, r2 = r - h / 2.0, r + h / 2.0
+    return (f(r2) - f(r1)) / (r2 - r1)
+  return d
+
+
 def replay_pair_table(target, nr, npots, derivs, labels, w, route="class", h=None):
-  """Concrete differential replay of an API-route counterexample: the solver's
-  cutoff, generic distinct functions; the real writer; the independent reader."""
+  """Concrete replay of an API-route counterexample against the real writer and
+  the independent reader: first with the functions of the solver's model (its
+  argument/value tables, so that e.g. 'energy exactly 0 at a grid point' is
+  reproduced), then with generic smooth functions; the cutoff is the model's."""
   import atsim.potentials as ap
   from atsim.potentials import Potential
   from atsim.potentials import pair_tabulation as pt
   cutoff = _cutoff_from(w)
-  fs = gen_functions(npots)
-  pots, spec = [], []
-  for p in range(npots):
-    f, d = fs[p]
-    fn = _WithDeriv(f, d) if derivs[p] else f
-    a, b = labels[p]
-    pots.append(Potential(a, b, fn) if h is None else Potential(a, b, fn, h))
-    spec.append((a, b, f, d))
-  out = io.StringIO()
-  cls = dict(LAMMPS=pt.LAMMPS_PairTabulation, DL_POLY=pt.DLPoly_PairTabulation, GULP=pt.GULP_PairTabulation)[target]
-  if route == "class":
-    cls(pots, cutoff, nr).write(out)
-  else:
-    ap.writePotentials(target, pots, cutoff, nr, out)
-  text = out.getvalue()
-  if target == "LAMMPS":
-    bad = compare_lammps(text, spec, cutoff, nr)
-  elif target == "DL_POLY":
-    bad = compare_dlpoly(text, spec, cutoff, nr)
-  else:
-    bad = compare_gulp(text, spec, cutoff, nr)
-  rec = dict(kind="pair_api", target=target, nr=nr, npots=npots, derivs=list(derivs), labels=labels,
-             cutoff=cutoff, route=route, h=h, mismatches=bad[:10])
-  return (bool(bad), "; ".join(bad[:4]) or "output agrees with the specification at cutoff=%r" % cutoff, rec)
+  hv = 1e-6 if h is None else h
+  mf = w.get("#functions", {}) if isinstance(w, dict) else {}
+  attempts = []
+  if all(("U%d" % p) in mf for p in range(npots)):
+    fs = []
+    for p in range(npots):
+      f = mf["U%d" % p]
+      d = mf.get("d_U%d" % p) if derivs[p] else _stencil(f, hv)
+      if d is None:
+        d = _stencil(f, hv)
+      fs.append((f, d))
+    attempts.append(("model functions", fs))
+  attempts.append(("generic functions", gen_functions(npots)))
+  last = None
+  for (what, fs) in attempts:
+    pots, spec = [], []
+    for p in range(npots):
+      f, d = fs[p]
+      fn = _WithDeriv(f, d) if derivs[p] else f
+      a, b = labels[p]
+      pots.append(Potential(a, b, fn) if h is None else Potential(a, b, fn, h))
+      spec.append((a, b, f, d))
+    out = io.StringIO()
+    cls = dict(LAMMPS=pt.LAMMPS_PairTabulation, DL_POLY=pt.DLPoly_PairTabulation, GULP=pt.GULP_PairTabulation)[target]
+    try:
+      if route == "class":
+        cls(pots, cutoff, nr).write(out)
+      else:
+        ap.writePotentials(target, pots, cutoff, nr, out)
+    except Exception as e:
+      bad = ["writer raised %s: %s" % (type(e).__name__, e)]
+      text = ""
+    else:
+      text = out.getvalue()
+      if target == "LAMMPS":
+        bad = compare_lammps(text, spec, cutoff, nr)
+      elif target == "DL_POLY":
+        bad = compare_dlpoly(text, spec, cutoff, nr)
+      else:
+        bad = compare_gulp(text, spec, cutoff, nr)
+    rec = dict(kind="pair_api", target=target, nr=nr, npots=npots, derivs=list(derivs), labels=labels,
+               cutoff=cutoff, route=route, h=h, functions=what, mismatches=bad[:10])
+    last = (bool(bad), ("[%s] " % what) + ("; ".join(bad[:4]) or "output agrees with the specification at cutoff=%r" % cutoff), rec)
+    if bad:
+      return last
+  return last
 
 
 def compare_gulp(text, pots_spec, cutoff, nr, tol=2e-10):
@@ -187,41 +223,83 @@ def compare_gulp(text, pots_spec, cutoff, nr, tol=2e-10):
   return bad
 
 
+def deriv_noise(f, r, h=1e-6):
+  """Absolute round-off noise of a central difference of f at r with step h
+  (the replay oracle must not mistake it for a violation)."""
+  try:
+    m = max(abs(f(r)), abs(f(r + h)), abs(f(r - h)), 1e-300)
+  except Exception:
+    return 0.0
+  return 64 * 2.2e-16 * m / h
+
+
 def num_deriv(f, r, h=1e-6):
-  """Central difference; None at a point where the one-sided slopes disagree
-  (a range boundary: the property speaks of differentiable points only)."""
+  """Derivative of f at r by central difference.  At a point where the
+  one-sided slopes disagree (a range boundary) the slope of the side that is
+  continuous with f(r) is returned (the range that contains r is the one the
+  property takes derivatives from); None if that cannot be decided."""
   try:
     fl, f0, fr = f(r - h), f(r), f(r + h)
   except (ZeroDivisionError, ValueError, OverflowError):
     return None
   left, right = (f0 - fl) / h, (fr - f0) / h
-  if abs(left - right) > 1e-3 * max(1.0, abs(left), abs(right)):
+  if abs(left - right) <= 1e-3 * max(1.0, abs(left), abs(right)):
+    return (f(r + h / 2) - f(r - h / 2)) / h
+  try:
+    # second one-sided estimates further out decide which side is smooth
+    fll, frr = f(r - 2 * h), f(r + 2 * h)
+  except (ZeroDivisionError, ValueError, OverflowError):
     return None
-  return (f(r + h / 2) - f(r - h / 2)) / h
+  left2, right2 = (fl - fll) / h, (frr - fr) / h
+  jump_l = abs(left - left2) > 1e-3 * max(1.0, abs(left2))
+  jump_r = abs(right - right2) > 1e-3 * max(1.0, abs(right2))
+  if jump_l and not jump_r:
+    return right     # f(r) belongs to the upper range
+  if jump_r and not jump_l:
+    return left      # f(r) belongs to the lower range
+  return None
 
 
 def replay_potable_pair(target, template, nr, w, default_cutoff):
-  """Concrete replay of a potable-route counterexample: the file is tabulated by
-  the real code at the solver's cutoff and compared, row by row, with the
-  potential objects evaluated directly (energy) and their central difference
-  (force)."""
-  from atsim.potentials.config import Configuration
+  """Concrete replay of a potable-route counterexample through
+  Configuration().read(): the model file is re-rendered with the solver's
+  parameter values and cutoff, tabulated by the real code and compared, row by
+  row, with the potential objects evaluated directly (energy) and their
+  numerical derivative (force).  Tried with the witness parameters first, then
+  with the file's own parameters."""
+  from atsim.potentials.config import Configuration, ConfigParser
+  from symx import potable as sp
   cutoff = _cutoff_from(w, default_cutoff)
-  text = (template % dict(target=target, nr=nr)).replace("cutoff : 6.0", "cutoff : %r" % cutoff)
-  tab = Configuration().read(io.StringIO(text))
-  out = io.StringIO()
-  tab.write(out)
-  spec = []
-  for pot in tab.potentials:
-    spec.append((pot.speciesA, pot.speciesB, pot.energy, lambda r, pot=pot: num_deriv(pot.energy, r)))
-  if target == "LAMMPS":
-    bad = compare_lammps(out.getvalue(), spec, cutoff, nr, tol=1e-5)
-  elif target in ("DL_POLY", "DLPOLY"):
-    bad = compare_dlpoly(out.getvalue(), spec, cutoff, nr, tol=1e-5)
-  else:
-    bad = compare_gulp(out.getvalue(), spec, cutoff, nr)
-  rec = dict(kind="pair_potable", target=target, nr=nr, cutoff=cutoff, model=text, mismatches=bad[:10])
-  return (bool(bad), "; ".join(bad[:4]) or "output agrees with direct evaluation", rec)
+  base = template % dict(target=target, nr=nr)
+  cp = ConfigParser(io.StringIO(base))
+  head = base[:base.index("[Pair]")].replace("cutoff : 6.0", "cutoff : %r" % cutoff)
+  vals = {k: v for k, v in w.items() if isinstance(k, str) and "|" in k and not k.endswith("#exact") and isinstance(v, float)}
+  last = None
+  for what, values in (("witness parameters", vals), ("file parameters", {})):
+    if what == "witness parameters" and not vals:
+      continue
+    text = head + sp.render_pairs(cp, values)
+    try:
+      tab = Configuration().read(io.StringIO(text))
+      out = io.StringIO()
+      tab.write(out)
+    except Exception as e:
+      last = (False, "[%s] replay model could not be tabulated: %s: %s" % (what, type(e).__name__, e), dict(model=text))
+      continue
+    spec = []
+    for pot in tab.potentials:
+      spec.append((pot.speciesA, pot.speciesB, pot.energy, lambda r, pot=pot: num_deriv(pot.energy, r)))
+    if target == "LAMMPS":
+      bad = compare_lammps(out.getvalue(), spec, cutoff, nr, tol=1e-5)
+    elif target in ("DL_POLY", "DLPOLY"):
+      bad = compare_dlpoly(out.getvalue(), spec, cutoff, nr, tol=1e-5)
+    else:
+      bad = compare_gulp(out.getvalue(), spec, cutoff, nr)
+    rec = dict(kind="pair_potable", target=target, nr=nr, cutoff=cutoff, model=text, parameters=what, mismatches=bad[:10])
+    last = (bool(bad), ("[%s] " % what) + ("; ".join(bad[:4]) or "output agrees with direct evaluation"), rec)
+    if bad:
+      return last
+  return last
 
 
 def generic_replay(path):
